@@ -373,6 +373,12 @@ var ruleLineThresholds = &core.Rule{ID: "R13.3", Min: 8,
 					}
 				}
 				s.Check(bad == "" && lines >= 0, "NDJSON per-line counting", c.Pos(f.Pos()), "9 first-token codes tabulated: every line counts, object/array lines count as containers", bad)
+				// initial state
+				for e, p := range hdr.Preds {
+					if !hdr.Dominates(p) {
+						s.Check(core.IsConstInt(ints[0].Edges[e], 0) && core.IsConstInt(ints[1].Edges[e], 0), "NDJSON counters start at zero", c.Pos(f.Pos()), "lines = 0, containers = 0", "the NDJSON counters do not start at (0, 0): the thresholds `at least two lines, at least one object or array` are met by fewer lines than that")
+					}
+				}
 				if lines >= 0 {
 					badT := ""
 					n := 0
